@@ -42,7 +42,11 @@ class TranslatorError(Exception):
 
 
 def sh(cmd, timeout=600, cwd=None, env=None, input=None):
-    """Run a command, return (rc, stdout+stderr).  Never raises on timeout."""
+    """Run a command, return (rc, stdout+stderr).  Never raises on timeout.
+    Timeouts are safety nets against hung tools, not verdicts: they are scaled by
+    VERIF_TIMEOUT_SCALE (default 3) so that a heavily loaded machine does not turn a slow
+    coqc into an alarm."""
+    timeout = int(timeout * float(os.environ.get("VERIF_TIMEOUT_SCALE", "3")))
     try:
         p = subprocess.run(
             cmd, cwd=cwd, env=env, input=input, text=True, timeout=timeout,
